@@ -26,10 +26,13 @@ What is proved, for all `n` and `G`:
       `C16_twirl_commutes`, `C16_twirl_residual`, `C16_twirl_selfadjoint`;
   (d) `C16_count_le`: the symmetries are linearly independent members of the commutant, so
       their number is **at most** its dimension.
-What is **not** proved: that the symmetries span the commutant (number `=` dimension;
-completeness, a theorem of arXiv:2502.16404).  `C16_partial` derives the full statement
-`C16_statement` from exactly this hypothesis; the correspondence check decides it per
-input with an independent numpy null-space computation (n ≤ 2 quick, n ≤ 3 thorough).
+What is **not** proved IN THIS FILE: that the symmetries span the commutant (number `=`
+dimension; completeness, a theorem of arXiv:2502.16404).  `C16_partial` derives the full
+statement `C16_statement` from exactly this hypothesis.  The hypothesis is proved in
+`Properties/C16Complete.lean` (`C16_complete`, `C16_count`, `C16_twirl_is_projection`,
+`C16_full : C16_statement`); the correspondence check still decides the count per input on
+the implementation with an independent numpy null-space computation (n ≤ 2 quick, n ≤ 3
+thorough).
 
 Scope.  Coefficients are exact Gaussian rationals; the source computes with `complex`
 doubles and normalises with `sqrt`.  The model's twirl is the rational form
